@@ -10,7 +10,12 @@
    saved (NOT the constructor arguments):
      general path      : self.sorted = sort or (qnumber == 0);  self.bunched = bunch
      single-block path : (every incoming leg has exactly one block) LegCharge.__init__ with one block sets
-                         sorted = bunched = True, whatever the arguments. *)
+                         sorted = bunched = True, whatever the arguments.
+   Executed against the code: stream `pipe-reinit` of harness/c17.py with the checker
+   Model/PipeReinitCheck.v:check_pipe_reinit - the raw content of the h5py file written by LegPipe.save_hdf5 is
+   compared with pipe_save, the pipe rebuilt by LegPipe.from_hdf5 and the unpickled pipe (charges, slices, q_map,
+   q_map_slices, _perm, _strides, sorted, bunched, legs, qconj) with pipe_load, the constructed pipe with
+   pipe_construct, for all four (sort, bunch) arguments, formats blocks / compact. *)
 From TenpyV Require Import Base.Prelude Model.ChargeL Model.Leg Model.Pipe.
 Open Scope Z_scope.
 
